@@ -48,11 +48,11 @@ fn docs(rng: &mut Rng, n: usize) -> Vec<J> {
 /// classes of number spellings that denote the same number
 fn number_classes() -> Vec<Vec<&'static str>> {
     vec![
-        vec!["100", "1e2", "1E2", "1e+2", "1E+2", "100.0", "1.0e2", "10e1", "1000e-1", "100.00", "1.00E2"],
+        vec!["100", "1e2", "1E2", "1e+2", "1E+2", "100.0", "1.0e2", "10e1", "1000e-1", "100.00", "1.00E2", "1e0002", "1E+0002", "10e00001", "1e00000002", "100e0000", "100E-00000", "1000e-0001", "1.0e+0002", "0.01e00004"],
         vec!["0", "-0", "0.0", "-0.0", "0e0", "0E5", "0.0e-3", "-0e1"],
-        vec!["0.5", "5e-1", "5E-1", "0.50", "0.05e1", "50e-2"],
+        vec!["0.5", "5e-1", "5E-1", "0.50", "0.05e1", "50e-2", "5e-0001", "5E-00001", "50e-00002", "0.05e0001"],
         vec!["-1.5", "-15e-1", "-1.50", "-0.15e1", "-150E-2"],
-        vec!["1", "1.0", "1e0", "1E-0", "10e-1", "0.1e1"],
+        vec!["1", "1.0", "1e0", "1E-0", "10e-1", "0.1e1", "1e0000", "1E+00000", "10e-0001", "0.1e00001"],
         vec!["9007199254740991", "9007199254740991.0", "9.007199254740991e15"],
         // float spellings only (an integer spelling beyond 2^53-1 is not a valid literal)
         vec!["2e16", "20000000000000000.0", "2.0e16", "20000000000000000.00", "2E+16", "0.2e17", "20000000000000000.0e0", "200000000000000000e-1"],
